@@ -184,10 +184,13 @@ class Vertex(base.BaseObject):
         -- linked, unlinked, or anything else, to maintain cache integrity and
         prevent stale data.
         """
+        # always drop cached data, even while caching is switched off:
+        # otherwise entries cached earlier would be served, stale, once caching
+        # is switched back on
+        self.__qa_nb_cache = {}
         if not self.NEIGHBOR_CACHING:
             return
         self._CACHE_STATS[self.uid][2] += 1
-        self.__qa_nb_cache = {}
 
     def _qa_neighbors_insert(self, answer, *args):
         """
